@@ -12,6 +12,12 @@ package agent
 //   s5: open, data up, the ingress PEER DISCONNECTS
 //   s6: UDP_OPEN relayed, ingress peer disconnects        s7: ICMP_OPEN relayed, peer disconnects
 //   s8: open whose outbound dial is gated (in flight), ingress peer disconnects, dial completes
+//   s9..s12: open whose exit-side goroutine is PARKED AT "STREAM_OPEN_ACK WRITTEN" (the handler's
+//        WriteStreamOpenAck has put the ACK on the link -- it is delivered to the ingress -- but has not
+//        returned to handleStreamOpenAsync yet); while it is parked the tunnel ends:
+//        s9 the ingress peer disconnects, s10 ingress STREAM_CLOSE, s11 ingress STREAM_RESET,
+//        s12 the target closes; then the gate is released and the open goroutine runs to its end.
+//        (Exit handler and port-forward handler alike: kind tcp | forward.)
 // Every ordered pair of scripts x every interleaving x {colliding, distinct} stream ids x topology.
 // Oracle: (always) both relay indices have the same size; (after both scripts ended and the mesh is
 // quiescent) the transit's tcp/udp/icmp relay tables are empty on both indices, the exit / forward
@@ -19,10 +25,12 @@ package agent
 // reset, failed, or disconnected), and no stream-manager entry remains.
 
 import (
+	"bytes"
 	"fmt"
 	"net"
 	"runtime"
 	"strings"
+	"sync/atomic"
 	"testing"
 
 	"github.com/postalsys/muti-metroo/internal/config"
@@ -42,6 +50,11 @@ var c17Scripts = map[string][]string{
 	"s6": {"Uo", "D"},
 	"s7": {"Io", "D"},
 	"s8": {"Og", "D", "G"}, // open whose outbound dial is still in flight when the peer disconnects; then the dial completes
+	// open goroutine parked between "ACK written" and its next statement; the tunnel ends meanwhile; gate released
+	"s9":  {"Oa", "D", "Ga"},
+	"s10": {"Oa", "C", "Ga"},
+	"s11": {"Oa", "R", "Ga"},
+	"s12": {"Oa", "T", "Ga"},
 }
 
 type c17Scenario struct {
@@ -73,9 +86,81 @@ type c17World struct {
 	gtgt  [2]*nsTarget
 	disc  [2]bool
 	pendingViol [][2]string
+	// ACK gate: the exit / forward handler's StreamWriter is wrapped (c17AckGate); an armed gate
+	// holds the return of WriteStreamOpenAck for the tunnel with request id 100+i
+	atgt       [2]*nsTarget
+	ackGate    [2]chan struct{}
+	ackArmed   [2]atomic.Bool
+	ackEntered [2]atomic.Bool
+	ackHeld    [2]bool      // tunnel i's open goroutine is parked at the gate
+	eofHeld    [2]bool      // the target closed its end while tunnel i's open goroutine was parked
+	cur        [2]*nsTarget // the target tunnel i's open was addressed to
 }
 
+// c17AckGate is a pass-through StreamWriter (exit.StreamWriter and forward.StreamWriter have the
+// same method set; the inner writer is the real Agent). WriteStreamOpenAck first performs the real
+// write (the ACK is on the link and can be delivered), then, if the gate of that tunnel is armed,
+// does not return until the harness releases it: the handler's open goroutine is parked exactly
+// between "ACK written" and whatever it does next. Parking AFTER the real write (rather than in the
+// netsim sink, inside the connection's write lock) keeps the peer connection usable meanwhile: the
+// frame loop answers a STREAM_CLOSE with a STREAM_CLOSE on the same connection.
+type c17AckGate struct {
+	inner *Agent
+	w     *c17World
+}
+
+func (g *c17AckGate) WriteStreamData(peerID identity.AgentID, streamID uint64, data []byte, flags uint8) error {
+	return g.inner.WriteStreamData(peerID, streamID, data, flags)
+}
+
+func (g *c17AckGate) WriteStreamOpenAck(peerID identity.AgentID, streamID uint64, requestID uint64, boundIP net.IP, boundPort uint16, ephemeralPubKey [crypto.KeySize]byte) error {
+	err := g.inner.WriteStreamOpenAck(peerID, streamID, requestID, boundIP, boundPort, ephemeralPubKey)
+	if i := int(requestID) - 100; i >= 0 && i < 2 && g.w.ackArmed[i].CompareAndSwap(true, false) {
+		g.w.ackEntered[i].Store(true)
+		<-g.w.ackGate[i]
+	}
+	return err
+}
+
+func (g *c17AckGate) WriteStreamOpenErr(peerID identity.AgentID, streamID uint64, requestID uint64, errorCode uint16, message string) error {
+	return g.inner.WriteStreamOpenErr(peerID, streamID, requestID, errorCode, message)
+}
+
+func (g *c17AckGate) WriteStreamClose(peerID identity.AgentID, streamID uint64) error {
+	return g.inner.WriteStreamClose(peerID, streamID)
+}
+
+// c17OpensInFlight counts the goroutines that are executing an exit / forward handler's
+// handleStreamOpenAsync right now (a state read used only by the barrier, never by the oracle).
+func c17OpensInFlight() int {
+	buf := make([]byte, 1<<17)
+	for {
+		n := runtime.Stack(buf, true)
+		if n < len(buf) {
+			buf = buf[:n]
+			break
+		}
+		buf = make([]byte, 2*len(buf))
+	}
+	c := 0
+	for _, g := range bytes.Split(buf, []byte("\n\n")) {
+		if bytes.Contains(g, []byte(").handleStreamOpenAsync(")) {
+			c++
+		}
+	}
+	return c
+}
+
+// c17Floor is the number of goroutines of the test process before any world exists. The forward
+// handler's read loops are not awaited by its Stop(), so the tail of the previous world may still be
+// running when the next one is built: its goroutines must be gone before the new world measures its
+// base, or the goroutine-count barrier of the new world would have slack.
+var c17Floor int
+
 func c17Build(sc c17Scenario) (*c17World, error) {
+	if c17Floor > 0 && !nsWait(func() bool { return runtime.NumGoroutine() <= c17Floor }) {
+		c17Floor = runtime.NumGoroutine() // something outlived its world for good: accept it as the new floor
+	}
 	vnet.Reset()
 	w := &c17World{}
 	n := 4
@@ -87,7 +172,7 @@ func c17Build(sc c17Scenario) (*c17World, error) {
 		if i == x {
 			cfg.Exit.Enabled = true
 			cfg.Exit.Routes = []string{"10.0.0.0/8"}
-			cfg.Forward.Endpoints = []config.ForwardEndpoint{{Key: "k0", Target: "10.9.0.1:7001"}, {Key: "k1", Target: "10.9.0.2:7002"}, {Key: "dead", Target: "10.9.0.9:7009"}, {Key: "g0", Target: "10.9.0.7:7007"}, {Key: "g1", Target: "10.9.0.8:7008"}}
+			cfg.Forward.Endpoints = []config.ForwardEndpoint{{Key: "k0", Target: "10.9.0.1:7001"}, {Key: "k1", Target: "10.9.0.2:7002"}, {Key: "dead", Target: "10.9.0.9:7009"}, {Key: "g0", Target: "10.9.0.7:7007"}, {Key: "g1", Target: "10.9.0.8:7008"}, {Key: "a0", Target: "10.9.0.5:7005"}, {Key: "a1", Target: "10.9.0.6:7006"}}
 		}
 	})
 	if err != nil {
@@ -115,19 +200,37 @@ func c17Build(sc c17Scenario) (*c17World, error) {
 			return inner(network, a)
 		})
 	}
+	for i := 0; i < 2; i++ {
+		w.atgt[i] = nsNewTarget(fmt.Sprintf("10.9.0.%d:%d", 5+i, 7005+i))
+		w.ackGate[i] = make(chan struct{})
+	}
+	gw := &c17AckGate{inner: nt.agents[x], w: w}
+	if h := nt.agents[x].exitHandler; h != nil {
+		h.SetWriter(gw)
+	}
+	if h := nt.agents[x].forwardHandler; h != nil {
+		h.VerifSetWriter(gw)
+	}
 	w.baseG = runtime.NumGoroutine()
 	return w, nil
 }
 
+func (w *c17World) targets() []*nsTarget {
+	return []*nsTarget{w.tgt[0], w.tgt[1], w.gtgt[0], w.gtgt[1], w.atgt[0], w.atgt[1]}
+}
+
 func (w *c17World) close() {
-	for i := range w.gate {
-		select {
-		case <-w.gate[i]:
-		default:
-			close(w.gate[i])
+	// every gate is released here at the latest: a parked goroutine can never outlive its world
+	for _, gates := range [][2]chan struct{}{w.gate, w.ackGate} {
+		for i := range gates {
+			select {
+			case <-gates[i]:
+			default:
+				close(gates[i])
+			}
 		}
 	}
-	for _, t := range []*nsTarget{w.tgt[0], w.tgt[1], w.gtgt[0], w.gtgt[1]} {
+	for _, t := range w.targets() {
 		t.close()
 		for i := 0; i < t.nconns(); i++ {
 			t.conn(i).Close()
@@ -138,7 +241,10 @@ func (w *c17World) close() {
 
 func (w *c17World) liveExitConns() int {
 	c := 0
-	for _, t := range []*nsTarget{w.tgt[0], w.tgt[1], w.gtgt[0], w.gtgt[1]} {
+	for _, t := range w.targets() {
+		if (t == w.atgt[0] && w.ackHeld[0]) || (t == w.atgt[1] && w.ackHeld[1]) {
+			continue // no read loop yet: the open goroutine (counted by acksHeld) is parked before starting it
+		}
 		for i := 0; i < t.nconns(); i++ {
 			if !t.conn(i).PeerClosed() {
 				c++
@@ -148,10 +254,23 @@ func (w *c17World) liveExitConns() int {
 	return c
 }
 
+func (w *c17World) acksHeld() int {
+	c := 0
+	for _, h := range w.ackHeld {
+		if h {
+			c++
+		}
+	}
+	return c
+}
+
 func (w *c17World) barrier() bool {
 	ok := nsWait(func() bool {
 		w.nt.settle(w.eps[0], w.eps[1])
-		return runtime.NumGoroutine() <= w.baseG+w.liveExitConns()+w.gated && w.nt.quiescent()
+		parked := w.gated + w.acksHeld()
+		// no open goroutine is under way except the parked ones; every other goroutine beyond the
+		// base is the read loop of a live destination connection; nothing queued
+		return runtime.NumGoroutine() <= w.baseG+w.liveExitConns()+parked && c17OpensInFlight() <= parked && w.nt.quiescent()
 	})
 	w.nt.settle(w.eps[0], w.eps[1])
 	return ok
@@ -161,6 +280,10 @@ func (w *c17World) answers() int {
 	return w.nt.countSent(w.x, func(f *protocol.Frame) bool {
 		return f.Type == protocol.FrameStreamOpenAck || f.Type == protocol.FrameStreamOpenErr
 	})
+}
+
+func (w *c17World) openErrs() int {
+	return w.nt.countSent(w.x, func(f *protocol.Frame) bool { return f.Type == protocol.FrameStreamOpenErr })
 }
 
 func (w *c17World) downPlain() int {
@@ -187,7 +310,7 @@ func (w *c17World) step(sc c17Scenario, i int, op string) string {
 	if sc.Topology == "transit" {
 		remaining = []identity.AgentID{w.nt.ids[w.x]}
 	}
-	if w.disc[i] && op != "G" {
+	if w.disc[i] && op != "G" && op != "Ga" {
 		return ""
 	}
 	switch op {
@@ -207,6 +330,7 @@ func (w *c17World) step(sc c17Scenario, i int, op string) string {
 			}
 			w.tun[i] = ep.openDomain(w.via, sid, uint64(100+i), remaining, protocol.ForwardStreamPrefix+key, 0)
 		}
+		w.cur[i] = w.tgt[i]
 		if !nsWait(func() bool {
 			w.nt.settle(w.eps[0], w.eps[1])
 			return w.answers() > before || w.tun[i].Answered
@@ -219,10 +343,45 @@ func (w *c17World) step(sc c17Scenario, i int, op string) string {
 		} else {
 			w.tun[i] = ep.openDomain(w.via, sid, uint64(100+i), remaining, protocol.ForwardStreamPrefix+fmt.Sprintf("g%d", i), 0)
 		}
+		w.cur[i] = w.gtgt[i]
 		w.nt.settle(w.eps[0], w.eps[1])
 		// the exit's open goroutine is now parked in the dial: one extra goroutine until the gate opens
 		w.gated++
 		return ""
+	case "Oa":
+		errsBefore := w.openErrs()
+		w.ackArmed[i].Store(true)
+		if sc.Kind == "tcp" {
+			w.tun[i] = ep.openIP(w.via, sid, uint64(100+i), remaining, net.ParseIP(fmt.Sprintf("10.9.0.%d", 5+i)), uint16(7005+i))
+		} else {
+			w.tun[i] = ep.openDomain(w.via, sid, uint64(100+i), remaining, protocol.ForwardStreamPrefix+fmt.Sprintf("a%d", i), 0)
+		}
+		w.cur[i] = w.atgt[i]
+		// either the open goroutine has written the ACK and is parked at the gate, or the open was refused
+		if !nsWait(func() bool {
+			w.nt.settle(w.eps[0], w.eps[1])
+			return w.ackEntered[i].Load() || w.openErrs() > errsBefore || w.tun[i].ErrCode != 0
+		}) {
+			return "harness: exit neither wrote an ACK nor refused the gated open"
+		}
+		w.ackHeld[i] = w.ackEntered[i].Load()
+		w.ackArmed[i].Store(false)
+		// falls through to the barrier: the ACK (already on the link) is delivered to the ingress
+	case "Ga":
+		if w.ackHeld[i] {
+			g0 := runtime.NumGoroutine() // includes the parked open goroutine
+			close(w.ackGate[i])
+			w.ackHeld[i] = false
+			if c := w.cur[i].conn(0); w.eofHeld[i] && c != nil {
+				// the target closed while the open goroutine was parked: the read loop it starts now sees
+				// EOF at once, sends FIN, runs its deferred closeConnection and exits (open goroutine and
+				// read loop both gone: fewer goroutines than before the release; count barrier as in "T")
+				if !nsWait(func() bool { return c.PeerClosed() || runtime.NumGoroutine() < g0 }) {
+					return "harness: read loop of the released open did not end although the target had closed"
+				}
+			}
+		}
+		// falls through to the barrier, which waits until the released open goroutine has run to its end
 	case "G":
 		select {
 		case <-w.gate[i]:
@@ -246,7 +405,7 @@ func (w *c17World) step(sc c17Scenario, i int, op string) string {
 			w.tun[i].sendData(ep, []byte(fmt.Sprintf("UP-%d;", i)), 0)
 		}
 	case "B":
-		if c := w.tgt[i].conn(0); c != nil && !c.PeerClosed() {
+		if c := w.cur[i].conn(0); c != nil && !c.PeerClosed() {
 			before := w.downPlain()
 			msg := []byte(fmt.Sprintf("DOWN-%d;", i))
 			c.Write(msg)
@@ -263,9 +422,13 @@ func (w *c17World) step(sc c17Scenario, i int, op string) string {
 			w.tun[i].sendReset(ep)
 		}
 	case "T":
-		if c := w.tgt[i].conn(0); c != nil && !c.PeerClosed() {
+		if c := w.cur[i].conn(0); c != nil && !c.PeerClosed() {
 			g0 := runtime.NumGoroutine()
 			c.Close()
+			if w.ackHeld[i] {
+				w.eofHeld[i] = true
+				break // no read loop exists yet that could react before the gate is released
+			}
 			// the exit's read loop for this connection sees EOF, sends FIN, runs its deferred
 			// closeConnection and exits: one goroutine fewer (count barrier, no timing)
 			if !nsWait(func() bool { return c.PeerClosed() || runtime.NumGoroutine() < g0 }) {
@@ -422,8 +585,9 @@ func c17Orders(a, b int) [][]int {
 
 func TestVerif_C17(t *testing.T) {
 	r := vmc.New("C17", "model_checking")
-	r.Rule = "every interleaving of two tunnel scripts (close, reset, failed open, target close, peer disconnect, relayed UDP/ICMP open + disconnect) from two scripted ingress endpoints dialing one real agent, per topology x kind x {colliding, distinct} ids; bookkeeping inspected after every step and at the end; non-trivial = distinct (configuration, script pair, interleaving)"
-	r.Assume("links FIFO; mesh run to quiescence after each step except the relayed UDP/ICMP open (left in flight); asynchronous exit goroutines awaited with count-based barriers")
+	c17Floor = runtime.NumGoroutine()
+	r.Rule = "every interleaving of two tunnel scripts (close, reset, failed open, target close, peer disconnect, relayed UDP/ICMP open + disconnect, open with the outbound dial in flight + disconnect, open whose exit-side goroutine is parked right after writing STREAM_OPEN_ACK while the peer disconnects / the ingress closes / the ingress resets / the target closes) from two scripted ingress endpoints dialing one real agent, per topology x kind x {colliding, distinct} ids; bookkeeping inspected after every step and at the end; non-trivial = distinct (configuration, script pair, interleaving)"
+	r.Assume("links FIFO; mesh run to quiescence after each step except the relayed UDP/ICMP open (left in flight); asynchronous exit goroutines awaited with count-based barriers (goroutine count, number of goroutines inside handleStreamOpenAsync, queued frames); the ACK gate is a pass-through wrapper around the handlers' StreamWriter (the real agent) that holds the return of one WriteStreamOpenAck after the real write")
 	var rp c17Scenario
 	if r.ReplayInto(&rp) {
 		c17Run(r, rp)
@@ -433,7 +597,8 @@ func TestVerif_C17(t *testing.T) {
 		}
 		return
 	}
-	names := []string{"s1", "s2", "s3", "s4", "s5", "s6", "s7", "s8"}
+	cell := -1
+	names := []string{"s1", "s2", "s3", "s4", "s5", "s6", "s7", "s8", "s9", "s10", "s11", "s12"}
 	for _, topo := range []string{"transit", "shared"} {
 		kinds := []string{"tcp", "forward"}
 		for _, kind := range kinds {
@@ -447,6 +612,11 @@ func TestVerif_C17(t *testing.T) {
 							continue // UDP/ICMP relay entries only exist on a transit
 						}
 						if kind == "forward" && !r.Thorough() && (a == "s6" || a == "s7") && (b == "s6" || b == "s7") {
+							continue
+						}
+						// worker processes split the (configuration, script pair) cells round-robin
+						cell++
+						if r.Shards > 1 && cell%r.Shards != r.Shard {
 							continue
 						}
 						for _, ord := range c17Orders(len(c17Scripts[a]), len(c17Scripts[b])) {
@@ -465,6 +635,9 @@ func TestVerif_C17(t *testing.T) {
 				}
 			}
 		}
+	}
+	if r.Shard == 0 {
+		r.Sample(map[string]any{"topology": "shared", "kind": "tcp", "same_ids": false, "scripts": []string{"s1", "s9"}, "order": []int{0, 1, 0, 1, 0, 1}})
 	}
 	r.Sample(map[string]any{"topology": "transit", "kind": "tcp", "same_ids": true, "scripts": []string{"s1", "s5"}, "order": []int{0, 1, 0, 1, 0, 1}})
 	if err := r.Finish(); err != nil {
